@@ -296,6 +296,19 @@ def scen_proxy_refs():
         elif fin._args[0] is not p._token or fin._args[2] is not None or fin._args[4] is not p._idset:
             bad.append('_incref registered the finalizer with %r' % (fin._args,))
         fin.cancel()
+        # a second proxy of the same referent in this process (a pickled copy, a proxy received twice): the id is already
+        # in the per-process id set; the new proxy still takes its own reference (its finalizer gives one back)
+        del sent[:]
+        p2 = M.BaseProxy.__new__(M.BaseProxy)
+        p2._token = M.Token('list', ('addr', 1), 'ident-2')
+        p2._id, p2._authkey, p2._manager, p2._tls, p2._idset = 'ident-2', b'key', None, threading.local(), {'ident-2'}
+        p2._Client = lambda addr, authkey=None: 'conn'
+        p2._incref()
+        got = [(n, a) for (_, _, n, a) in sent]
+        if got != [('incref', ('ident-2',))]:
+            bad.append('_incref of a second proxy of an object this process already refers to: requests %r '
+                       '(expected one incref: its finalizer will send a decref)' % (got,))
+        p2._close.cancel()
     finally:
         M.dispatch = real_dispatch
     return bad
